@@ -93,7 +93,7 @@ type c19Edge struct {
 	parallel int // number of channels/hints connecting from->to with a policy
 }
 
-func (c *c19Case) edge(from, to int, id uint64) (e c19Edge, found bool) {
+func (c *c19Case) edge(from, to int, id uint64, hints []c19Hint) (e c19Edge, found bool) {
 	for i := range c.Chans {
 		ch := &c.Chans[i]
 		fwd, rev, ok := ch.pol(from, to)
@@ -112,8 +112,8 @@ func (c *c19Case) edge(from, to int, id uint64) (e c19Edge, found bool) {
 			e.inB, e.inR = rev.InBase, rev.InRate
 		}
 	}
-	for i := range c.Hints {
-		h := &c.Hints[i]
+	for i := range hints {
+		h := &hints[i]
 		if h.From != from || h.To != to {
 			continue
 		}
@@ -132,8 +132,49 @@ func (c *c19Case) edge(from, to int, id uint64) (e c19Edge, found bool) {
 // the link accepts and the wire failure name otherwise.
 type c19Xcheck func(pol *c19Pol, inB, inR int32, in, out uint64, inT, outT, height uint32) string
 
-// c19Validate judges the route returned for query c.
+// c19Validate judges the route returned for query c. A payment to a set of
+// several blinded paths is payable iff the route is payable over ONE path of the
+// set (its introduction node, its pseudonyms and cipher texts, its aggregate
+// terms): the route is judged against every path; the verdict is the first clean
+// one, else that of the closest match (only which path's complaints are shown
+// depends on that choice, not whether the route is rejected).
 func c19Validate(c *c19Case, rt *route.Route, xcheck c19Xcheck, fullOnion bool) *c19Verdict {
+	if len(c.BlindMore) == 0 {
+		return c19ValidateOne(c, rt, xcheck, fullOnion)
+	}
+	// closest match: a path whose shape (introduction node, pseudonyms, cipher
+	// texts) the route has, then the fewest violated clauses
+	score := func(v *c19Verdict) int {
+		n := len(v.viols)
+		for _, p := range v.viols {
+			switch p.Clause {
+			case "blinded-shape", "blinded-payload", "wrong-destination", "unknown-node":
+				n += 1000
+			}
+		}
+		return n
+	}
+	var best *c19Verdict
+	for i, b := range c.blindPaths() {
+		d := *c
+		d.Blind, d.BlindMore = b, nil
+		v := c19ValidateOne(&d, rt, xcheck, fullOnion)
+		v.feats["blinded-set"] = true
+		v.feats[fmt.Sprintf("blinded-set-path%d", i)] = true
+		if len(v.viols) == 0 {
+			return v
+		}
+		for j := range v.viols {
+			v.viols[j].What = fmt.Sprintf("[judged against path %d of the blinded set, the closest match] %s", i, v.viols[j].What)
+		}
+		if best == nil || score(v) < score(best) {
+			best = v
+		}
+	}
+	return best
+}
+
+func c19ValidateOne(c *c19Case, rt *route.Route, xcheck c19Xcheck, fullOnion bool) *c19Verdict {
 	v := &c19Verdict{feats: map[string]bool{}, hops: len(rt.Hops)}
 	n := len(rt.Hops)
 	if n == 0 {
@@ -240,11 +281,14 @@ func c19Validate(c *c19Case, rt *route.Route, xcheck c19Xcheck, fullOnion bool) 
 			v.add("totals-inconsistent", -1, "sum of HopFee=%s TotalFees()=%d TotalAmount-amount=%s ReceiverAmt()=%d", sum, rt.TotalFees(), fee, rt.ReceiverAmt())
 		}
 	}
-	limit := new(big.Int).Add(c19b(uint64(height)), c19b(uint64(finalDelta)))
+	// A payment session pads the final delta; its limit (LightningPayment.CltvLimit)
+	// bounds the whole relative time lock, which is height + final delta + pad +
+	// the case's relative limit (see c19RunSession).
+	limit := new(big.Int).Add(c19b(uint64(height)), c19b(uint64(finalDelta)+uint64(c.finalPad())))
 	v.relCltv = int64(rt.TotalTimeLock) - limit.Int64()
 	limit.Add(limit, c19b(uint64(c.CltvLimit)))
 	if c19b(uint64(rt.TotalTimeLock)).Cmp(limit) > 0 {
-		v.add("cltv-limit-exceeded", -1, "TotalTimeLock %d exceeds height %d + final delta %d + cltv limit %d", rt.TotalTimeLock, height, finalDelta, c.CltvLimit)
+		v.add("cltv-limit-exceeded", -1, "TotalTimeLock %d exceeds height %d + final delta %d (+ session pad %d) + cltv limit %d", rt.TotalTimeLock, height, finalDelta, c.finalPad(), c.CltvLimit)
 	} else if c.CltvLimit != c19NoCltvLimit {
 		v.feats["cltvlimit"] = true
 		if c19b(uint64(rt.TotalTimeLock)).Cmp(limit) == 0 {
@@ -259,9 +303,10 @@ func c19Validate(c *c19Case, rt *route.Route, xcheck c19Xcheck, fullOnion bool) 
 	for _, id := range c.OutChans {
 		outSet[id] = true
 	}
+	hintTopo := c.hintEdges()
 	for i := 0; i < clearN; i++ {
 		from, to, id := v.from[i], v.to[i], v.chanIDs[i]
-		e, found := c.edge(from, to, id)
+		e, found := c.edge(from, to, id, hintTopo)
 		edges[i] = e
 		local := from == c.Self
 		switch {
@@ -426,7 +471,7 @@ func c19Validate(c *c19Case, rt *route.Route, xcheck c19Xcheck, fullOnion bool) 
 		// shape of the blinded hops
 		for j := k; j < n; j++ {
 			h := rt.Hops[j]
-			want := c19Cipher(blind.CipherLen, j-k)
+			want := c19Cipher(blind.CipherLen, blind.salt()+j-k)
 			if !bytes.Equal(h.EncryptedData, want) {
 				v.add("blinded-payload", j, "hop %d does not carry blinded hop %d's encrypted data", j, j-k)
 			}
@@ -437,7 +482,7 @@ func c19Validate(c *c19Case, rt *route.Route, xcheck c19Xcheck, fullOnion bool) 
 				v.add("blinded-payload", j, "non-final blinded hop %d has clear-text amount/expiry %d/%d", j, h.AmtToForward, h.OutgoingTimeLock)
 			}
 			if j > k {
-				want := c19BlindBase + (j - k) - 1
+				want := blind.keyBase() + (j - k) - 1
 				if got := c19KeyIdx[h.PubKeyBytes]; got != want {
 					v.add("blinded-shape", j, "hop %d goes to node %d, expected blinded node %d", j, got, want)
 				}
@@ -496,22 +541,27 @@ func c19BruteForce(c *c19Case) c19Best {
 		to int
 	}
 	adj := map[int][]step{}
+	hintTopo := c.hintEdges()
 	for i := range c.Chans {
 		ch := &c.Chans[i]
 		for _, d := range [][2]int{{ch.U, ch.V}, {ch.V, ch.U}} {
-			e, _ := c.edge(d[0], d[1], ch.ID)
+			e, _ := c.edge(d[0], d[1], ch.ID, hintTopo)
 			if e.pol != nil {
 				adj[d[0]] = append(adj[d[0]], step{e, ch.ID, d[1]})
 			}
 		}
 	}
-	for i := range c.Hints {
-		h := &c.Hints[i]
-		e, _ := c.edge(h.From, h.To, h.ID)
+	for i := range hintTopo {
+		h := &hintTopo[i]
+		e, _ := c.edge(h.From, h.To, h.ID, hintTopo)
 		adj[h.From] = append(adj[h.From], step{e, h.ID, h.To})
 	}
 	var path []step
 	visited := map[int]bool{}
+	maxLen := 4
+	if len(c.RouteHints) > 0 {
+		maxLen = 6 // chained hints: up to 3 private hops behind up to 3 public ones
+	}
 	eval := func() {
 		// backward pass with the minimal amounts
 		n := len(path)
@@ -568,7 +618,7 @@ func c19BruteForce(c *c19Case) c19Best {
 			eval()
 			return
 		}
-		if len(path) >= 4 {
+		if len(path) >= maxLen {
 			return
 		}
 		for _, s := range adj[node] {
